@@ -13,7 +13,7 @@ pub use web_time::Instant;
 /// Checks if a deadline was exeeded.
 pub fn deadline_exceeded(deadline: Option<Instant>) -> bool {
     #[cfg(similar_verif)]
-    if let Some(rv) = crate::verif_hooks::probe(deadline.is_some()) {
+    if let Some(rv) = crate::verif_hooks::probe(deadline) {
         return rv;
     }
     #[allow(unreachable_code)]
